@@ -385,6 +385,52 @@ def r9_location_pair(c, facts, rule='C16.R9'):
     c.floor(R, 'text edits built by rename_variable', n, 2)
 
 
+def r14_sync_capability(c, facts, rule='C16.R14'):
+    """the server's text is the client's only if the client tells it about every document it opens: the announced
+    text-document sync is the bare kind (open/close notifications implied) or an options structure with open_close set -
+    `TextDocumentSyncOptions { change, ..Default::default() }` leaves openClose unset and a compliant client then sends
+    changes for documents the server never saw opened"""
+    R = c.rule(rule, 'SYNC-CAPABILITY: the announced text document sync makes the client send didOpen / didClose')
+    found = []
+    for f in facts.fns.values():
+        if not f.mir or not (f.crate == 'oal_lsp' or f.qname.startswith('oal_client::lsp')):
+            continue
+        idx = MF.defs_index(f)
+        for b, blk in f.blocks():
+            for st in blk['stmts']:
+                rv = st['rv'] if st['s'] == 'assign' else None
+                if not rv or rv['r'] != 'aggr' or not (rv.get('adt') or '').endswith('TextDocumentSyncCapability'):
+                    continue
+                if rv.get('variant') == 'Kind':
+                    k = rv['ops'][0]
+                    ks = [k] if k.get('o') == 'const' else MF.slice_back(f, k['l'], idx)['consts']
+                    names = {str(x.get('d') or '').split('::')[-1] for x in ks}
+                    found.append(('kind', names))
+                else:
+                    # Options(..): the structure must be built with open_close = Some(true)
+                    op = rv['ops'][0]
+                    okc = False
+                    for l in ({op.get('l')} | (MF.slice_back(f, op['l'], idx)['locals'] if 'l' in op else set())):
+                        for kind, bi, x in idx.get(l, []):
+                            if kind == 'assign' and x['rv']['r'] == 'aggr' and (x['rv'].get('adt') or '').endswith('TextDocumentSyncOptions'):
+                                flds = x['rv'].get('fields') or []
+                                if 'open_close' in flds:
+                                    o2 = x['rv']['ops'][flds.index('open_close')]
+                                    sl = MF.slice_back(f, o2['l'], idx) if 'l' in o2 else {'consts': [o2], 'calls': [], 'aggrs': []}
+                                    if not sl['calls'] and any(str(kk.get('val')) == '1' or 'true' in str(kk.get('d')) for kk in sl['consts']):
+                                        okc = True
+                    found.append(('options', {'open_close=true'} if okc else {'open_close unset'}))
+    if not found:
+        c.bad(R, 'sync-capability-shape', 'no TextDocumentSyncCapability value is built any more')
+        return
+    for form, names in found:
+        inst = {'form': form, 'value': sorted(names)}
+        if (form == 'kind' and names and names <= {'INCREMENTAL', 'FULL'}) or (form == 'options' and names == {'open_close=true'}):
+            c.ok(R, inst)
+        else:
+            c.bad(R, 'sync-capability:%s:%s' % (form, ','.join(sorted(names))), 'the announced text document sync (%s: %s) does not make a compliant client send didOpen / didClose: the server then edits and converts positions against the file on disk, not the client\'s buffer' % (form, sorted(names)), **inst)
+
+
 def r13_range_verbatim(c, facts, rule='C16.R13'):
     """what the client is sent is the converted range itself: a range that is widened, shifted or otherwise touched up
     after the conversion (`range.end.character += 1` for an empty one) no longer selects the span's text - and can point
@@ -542,6 +588,7 @@ def run(c, facts):
     import c11
     R7 = c.rule('C16.R7', 'LOADER-TEXT: the server parses exactly the text it holds for the document, so tree spans are byte offsets into the text positions are converted with (shared with C11.R1)')
     c.shared(R7, c11.r1_lex_range, 'C11.R1', facts)
+    c.run(r14_sync_capability, facts)
     c.run(r13_range_verbatim, facts)
     c.run(r5_same_text, facts)
     c.run(lambda c: run_units(c, facts))
